@@ -266,6 +266,78 @@ def g6(rep, config):
                              "byte-granular bound; re-read" % render(eqs[0])[:80])
 
 
+def g7(rep, config):
+    """The collector's roots come from osMemMap.  The Linux variant fills a table with one entry per writable line of
+    /proc/<pid>/maps: the fill loop must bound the entry cursor by the table's capacity (the number of mappings is the process's,
+    not the compiler's), and the look-back at the previous entry must not happen before the first entry exists."""
+    f = common.extract("opsys.c", config, trees=["osMemMap"])       # os_unix.c is included by opsys.c
+    fn = f.func("osMemMap")
+    tag = "" if config == "compiler" else " [runtime]"
+    incs = [x for x in walk(fn["body"]) if x["k"] == "UnaryOperator" and x.get("op") in ("++", "post++", "pre++") or
+            x["k"] == "UnaryOperator" and "++" in (x.get("op") or "")]
+    par = common.parents(fn["body"])
+    loops = {}
+    for x in incs:
+        v = strip(x["c"][0])
+        if v is None or v["k"] != "DeclRefExpr":
+            continue
+        cur = x
+        while cur["id"] in par:
+            cur = par[cur["id"]]
+            if cur["k"] in ("WhileStmt", "ForStmt", "DoStmt"):
+                loops.setdefault(cur["id"], (cur, set()))[1].add(v["n"])
+                break
+    fills = []
+    for lp, vs in loops.values():
+        cond = lp["c"][0] if lp["k"] == "WhileStmt" else (lp["c"][1] if lp["k"] == "ForStmt" else lp["c"][1])
+        reads = [c for c in calls(cond) if c.get("callee") in ("fgets", "read", "getline", "fscanf")] if cond is not None else []
+        if reads and any(y["k"] == "MemberExpr" and (strip(y["c"][0]) or {}).get("n") in vs for y in walk(lp)):
+            fills.append((lp, cond, vs))
+    if len(fills) != 1:
+        raise AnalysisBroken("osMemMap: expected one loop reading the mapping lines and advancing an entry cursor (found %d)" % len(fills))
+    lp, cond, vs = fills[0]
+    where = "os_unix.c:%d (osMemMap)%s" % (lp["l"], tag)
+    cursors = [v for v in vs if any(y["k"] == "MemberExpr" and (strip(y["c"][0]) or {}).get("n") == v for y in walk(lp))]
+    if len(cursors) != 1:
+        raise AnalysisBroken("osMemMap: entry cursor not identified (%s)" % sorted(vs))
+    cur = cursors[0]
+    bounded = [y for y in walk(cond) if y["k"] == "BinaryOperator" and y["op"] in ("<", "<=", ">", ">=", "!=") and
+               any(z["k"] == "DeclRefExpr" and z["n"] == cur for z in walk(y))]
+    inner = [y for y in walk(lp) if y["k"] == "IfStmt" and any(z["k"] == "BreakStmt" for z in walk(y)) and
+             any(z["k"] == "DeclRefExpr" and z["n"] == cur for z in walk(y["c"][0]))]
+    if bounded or inner:
+        rep.ok("G7", "memmap-table-bounded" + tag, sample={"bound": common.render((bounded or [inner[0]["c"][0]])[0])[:60]})
+    else:
+        rep.violation("G7", "memmap-table-bounded" + tag, where,
+                      "the loop that records one table entry per writable mapping advances '%s' with no comparison against the "
+                      "table's capacity: a process with more mappings than the table has slots overwrites what follows the table "
+                      "at its first collection" % cur)
+    back = [y for y in walk(lp) if y["k"] == "ArraySubscriptExpr" and (strip(y["c"][0]) or {}).get("n") == cur and
+            (const_value(y["c"][1]) or 0) < 0]
+    unguarded = []
+    for b in back:
+        c2, ok = b, False
+        while c2["id"] in par and c2 is not lp:
+            p_ = par[c2["id"]]
+            if p_["k"] == "BinaryOperator" and p_["op"] == "&&" and p_["c"][1] is not None and any(z is c2 for z in walk(p_["c"][1])):
+                if any(z["k"] == "BinaryOperator" and z["op"] in (">", "!=", ">=") and
+                       any(w["k"] == "DeclRefExpr" and w["n"] == cur for w in walk(z)) for z in walk(p_["c"][0])):
+                    ok = True
+            if p_["k"] == "IfStmt" and p_["c"][1] is not None and any(z is c2 for z in walk(p_["c"][1])):
+                if any(z["k"] == "BinaryOperator" and z["op"] in (">", "!=", ">=") and
+                       any(w["k"] == "DeclRefExpr" and w["n"] == cur for w in walk(z)) for z in walk(p_["c"][0])):
+                    ok = True
+            c2 = p_
+        if not ok:
+            unguarded.append(b)
+    if back and not unguarded:
+        rep.ok("G7", "memmap-lookback-guarded" + tag)
+    elif unguarded:
+        rep.violation("G7", "memmap-lookback-guarded" + tag, "os_unix.c:%d (osMemMap)%s" % (unguarded[0]["l"], tag),
+                      "`%s` is read with no test that an entry precedes the cursor: for the first data segment it reads the word "
+                      "before the table" % common.render(unguarded[0]))
+
+
 def run(tier, only=None):
     rep = common.Report("C09", tier, EXPLANATION)
     check_config(rep, "compiler", common.compiler_units())
@@ -278,5 +350,6 @@ def run(tier, only=None):
     g5(rep)
     for config in ("compiler", "runtime"):
         g6(rep, config)
+        g7(rep, config)
     rep.assumptions.append("setjmp stores the callee-saved registers in its buffer (the idiom the collector relies on)")
     return rep
